@@ -1,8 +1,8 @@
 package checks
 
 import (
-	"os"
 	"fmt"
+	"os"
 	"strings"
 	"sync"
 	"time"
